@@ -54,6 +54,7 @@ type connRec struct {
 	pe         *peerEnd
 	peerClosed bool
 	heldAcc    bool // held at router.accepted
+	preTest    int32 // its set-up thread is held before its first test of the closed flag
 }
 
 type peerHost struct {
@@ -103,11 +104,50 @@ type renv struct {
 	heldMsg  map[int]int // conn index -> held message id
 	panicked bool
 	sendPeer []int
+
+	connMu       sync.Mutex // e.conns and connRec.our, read by the sampler in the Stop goroutine
+	sampleOnce   sync.Once
+	openRet      []bool
+	exemptRet    []bool
+	heldSendConn map[int]*connRec
 }
 
 type dispEv struct {
 	stamp int64
 	msg   int
+}
+
+func (e *renv) addConn(rec *connRec) {
+	e.connMu.Lock()
+	e.addConn(rec)
+	e.connMu.Unlock()
+}
+
+func (e *renv) setOur(rec *connRec, c network.Conn) {
+	e.connMu.Lock()
+	rec.our = c
+	e.connMu.Unlock()
+}
+
+// sampleAtReturn records, at the instant the first Stop call returns and before anything is
+// allowed to settle, whether the router's endpoint of every connection made so far is closed.
+func (e *renv) sampleAtReturn() {
+	e.sampleOnce.Do(func() {
+		e.connMu.Lock()
+		defer e.connMu.Unlock()
+		for _, c := range e.conns {
+			open := true
+			if c.our != nil {
+				if closed, known := network.VerifConnClosed(c.our); known {
+					open = !closed
+				}
+			} else if c.pe != nil {
+				open = atomic.LoadInt32(&c.pe.eofSeen) == 0
+			}
+			e.openRet = append(e.openRet, open)
+			e.exemptRet = append(e.exemptRet, atomic.LoadInt32(&c.preTest) == 1)
+		}
+	})
 }
 
 func (e *renv) tick() int64 { return atomic.AddInt64(&e.stamp, 1) }
@@ -129,7 +169,7 @@ func newREnv(tcp bool, npeers int) (*renv, error) {
 		closedSetCh: make(chan struct{}, 64),
 		dispEnd:     map[int]chan struct{}{}, holdDisp: map[int]chan struct{}{},
 		heldSend: map[int]*lib.Gate{}, heldIn: map[int]*lib.Gate{}, heldStop: map[int]*lib.Gate{},
-		heldMsg: map[int]int{}}
+		heldMsg: map[int]int{}, heldSendConn: map[int]*connRec{}}
 	if tcp {
 		si := newKeyedIdentity(network.NewTCPAddress("127.0.0.1:0"))
 		h, err := network.NewTCPHost(si, suite)
@@ -353,7 +393,7 @@ func (e *renv) startSend(si *network.ServerIdentity, id int) *opResult {
 func (e *renv) trackDial(res *opResult, peer int, gate *lib.Gate) bool {
 	note := func(c network.Conn) {
 		rec := &connRec{idx: len(e.conns), peer: peer, dialled: true, our: c}
-		e.conns = append(e.conns, rec)
+		e.addConn(rec)
 		if peer >= 0 {
 			select {
 			case pc := <-e.peers[peer].accepted:
@@ -429,7 +469,7 @@ func (e *renv) dialIn(p int) *connRec {
 		}
 	}
 	rec := &connRec{idx: len(e.conns), peer: p, pe: newPeerEnd(c, false)}
-	e.conns = append(e.conns, rec)
+	e.addConn(rec)
 	return rec
 }
 
@@ -455,6 +495,11 @@ func (e *renv) runMacro(m mac, seqNo int) error {
 		}
 		res := e.startSend(si, 1000+seqNo)
 		held := e.trackDial(res, peer, gate)
+		if held && m.Op == "sendhold" && len(e.conns) > 0 {
+			rec := e.conns[len(e.conns)-1]
+			atomic.StoreInt32(&rec.preTest, 1)
+			e.heldSendConn[idx] = rec
+		}
 		if !held {
 			if gate != nil {
 				gate.Release()
@@ -467,9 +512,12 @@ func (e *renv) runMacro(m mac, seqNo int) error {
 	case "sendrelease":
 		g := e.heldSend[m.A]
 		if g == nil {
-			return nil
+			return fmt.Errorf("release of a Send that is not held")
 		}
 		delete(e.heldSend, m.A)
+		if rec := e.heldSendConn[m.A]; rec != nil {
+			atomic.StoreInt32(&rec.preTest, 0)
+		}
 		g.Release()
 		res := e.sends[m.A]
 		// the retry path of Send may dial once more
@@ -620,7 +668,7 @@ func (e *renv) runMacro(m mac, seqNo int) error {
 	case "deliverrelease":
 		id, ok := e.heldMsg[m.A]
 		if !ok {
-			return nil
+			return fmt.Errorf("release of a delivery that is not held")
 		}
 		delete(e.heldMsg, m.A)
 		e.mu.Lock()
@@ -659,6 +707,7 @@ func (e *renv) runMacro(m mac, seqNo int) error {
 				close(res.done)
 			}()
 			res.err = e.r.Stop()
+			e.sampleAtReturn()
 			e.mu.Lock()
 			e.stopRetStamp[idx] = e.tick()
 			e.mu.Unlock()
@@ -680,7 +729,7 @@ func (e *renv) runMacro(m mac, seqNo int) error {
 	case "stoprelease":
 		g := e.heldStop[m.A]
 		if g == nil {
-			return nil
+			return fmt.Errorf("release of a Stop that is not held")
 		}
 		delete(e.heldStop, m.A)
 		g.Release()
